@@ -71,18 +71,32 @@ pub open spec fn entry_out(e: Entry) -> EntryOut {
 pub open spec fn attr_out(st: stat64, t: Duration) -> AttrOut { AttrOut { attr_valid: t.secs, attr_valid_nsec: t.nanos, dummy: 0, attr: attr_of(st, 0) } }
 pub open spec fn lock_of(l: WireFileLock) -> FileLock { FileLock { start: l.start, end: l.end, lock_type: l.type_, pid: l.pid } }
 pub open spec fn wire_lock_of(l: FileLock) -> WireFileLock { WireFileLock { start: l.start, end: l.end, type_: l.lock_type, pid: l.pid } }
-pub uninterp spec fn kstatfs_of(st: statvfs64) -> Kstatfs;             // Kstatfs::from(statvfs64): field preservation is proved by KX (C13)
-pub uninterp spec fn stat_of_setattr(s: SetattrIn) -> stat64;          // stat64::from(SetattrIn): proved by KX (C13)
-
-impl From<statvfs64> for Kstatfs {
-    #[verifier::external_body] fn from(st: statvfs64) -> (r: Kstatfs) ensures r == kstatfs_of(st) { unimplemented!() }
+// "conversions between host stat data and wire attributes preserve every field the wire format can carry"
+pub open spec fn kstatfs_of(st: statvfs64) -> Kstatfs {
+    Kstatfs { blocks: st.f_blocks, bfree: st.f_bfree, bavail: st.f_bavail, files: st.f_files, ffree: st.f_ffree, bsize: st.f_bsize as u32,
+              namelen: st.f_namemax as u32, frsize: st.f_frsize as u32, padding: 0, spare: [0, 0, 0, 0, 0, 0] }
 }
+pub open spec fn zero_stat64() -> stat64 {
+    stat64 { st_dev: 0, st_ino: 0, st_nlink: 0, st_mode: 0, st_uid: 0, st_gid: 0, st_rdev: 0, st_size: 0, st_blksize: 0, st_blocks: 0,
+             st_atime: 0, st_atime_nsec: 0, st_mtime: 0, st_mtime_nsec: 0, st_ctime: 0, st_ctime_nsec: 0 }
+}
+// what a SETATTR request asks the filesystem to set: every field of fuse_setattr_in that struct stat can carry
+pub open spec fn stat_of_setattr(s: SetattrIn) -> stat64 {
+    stat64 { st_mode: s.mode, st_uid: s.uid, st_gid: s.gid, st_size: s.size as i64, st_atime: s.atime as i64, st_mtime: s.mtime as i64, st_ctime: s.ctime as i64,
+             st_atime_nsec: s.atimensec as i64, st_mtime_nsec: s.mtimensec as i64, st_ctime_nsec: s.ctimensec as i64, ..zero_stat64() }
+}
+// std::mem::zeroed::<libc::stat64>() (inside `unsafe`): the all-zero bit pattern of a plain-old-data struct is the value whose
+// integer fields are all zero (assumed)
+pub mod mem {
+    use vstd::prelude::*;
+    #[verifier::external_body]
+    pub unsafe fn zeroed() -> (r: super::stat64) ensures r == super::zero_stat64() { unimplemented!() }
+}
+pub type mode_t = u32;
+pub assume_specification [<i64 as core::convert::From<u32>>::from] (v: u32) -> (r: i64) ensures r == v as i64;
 impl vstd::std_specs::convert::FromSpecImpl<statvfs64> for Kstatfs {
     open spec fn obeys_from_spec() -> bool { true }
     open spec fn from_spec(v: statvfs64) -> Kstatfs { kstatfs_of(v) }
-}
-impl From<SetattrIn> for stat64 {
-    #[verifier::external_body] fn from(s: SetattrIn) -> (r: stat64) ensures r == stat_of_setattr(s) { unimplemented!() }
 }
 impl vstd::std_specs::convert::FromSpecImpl<SetattrIn> for stat64 {
     open spec fn obeys_from_spec() -> bool { true }
